@@ -5,7 +5,7 @@ from fractions import Fraction
 import lib
 from checks import naming_common as nc
 
-TARGETS = ["Props/C12.v", "Naming/Script.v"]
+TARGETS = ["Props/C12.v", "Naming/Script.v", "Naming/Examples.v"]
 
 MANIFEST = dict(
     text="Theorems about the NamingActor model, for every state satisfying the registry invariant Inv (proved reachable in C11): "
@@ -193,10 +193,11 @@ def run(chk, replay=None):
         chk.violation("harness does not build against /repo", {"broken": "harness build", "log": out[-3000:]}, False)
         return
     hashes = nc.get_hashes()
-    if replay:
-        cases = [json.load(open(replay))["replay"]["case"]]
+    rp = json.load(open(replay))["replay"] if replay else None
+    if rp and isinstance(rp, dict) and rp.get("case"):
+        cases = [rp["case"]]
     else:
-        n = 220 if tier == "quick" else 2500
+        n = 900 if tier == "quick" else 6000
         cases = nasty_cases(rng) + [random_case(rng, rng.choice([15, 25, 35])) for _ in range(n)]
     impl = lib.harness_run_parallel("naming", cases)
 
@@ -266,7 +267,7 @@ def run(chk, replay=None):
                        "histories (>= 2 gRPC clients + HTTP + synced remote clients, overlapping addresses). Non-trivial = distinct "
                        "(query kind, healthy_only, threshold, #instances, #healthy, #enabled) with >1 instance, distinct client-set at "
                        "a disconnect, distinct (ephemeral, owner, caller) at a deregistration")
-    chk.cov["samples"] = [cases[0], cases[1], cases[len(cases) // 2]]
+    chk.cov["samples"] = cases[:2] + [cases[len(cases) // 2]]
     chk.cov["input_distribution"] = {"histories": len(cases), "judged_ops_by_kind": hist, "model_impl_mismatches": mism}
     chk.assumptions += ["thresholds exactly representable (k/4), binary32 rounding not modelled", "cluster filter string empty (the code ignores it)",
                         "instances not from gRPC carry no client id (op_wf)"]
